@@ -99,7 +99,8 @@ theorem C11_waitActivation {a : Bool} {s s' : St} {t : Tid} {k : Kind} (h : Reac
 /-- the only way into "about to return `true` under the mutex" is a load of `true` of the awaited flag -/
 theorem C11_decided_by_load {s s' : St} {t : Tid} {e : Ev} {k : WKind} (hs : step s t e = some s')
     (hp : s'.pc t = .wUnlock k true) :
-    e = .ld k.side .sc true ∧ s.flag k.side = true ∧ (s.pc t = .wTimedOut k ∨ ∃ f, s.pc t = .wHold k f) := by
+    e = .ld k.side .sc true ∧ s.flag k.side = true ∧
+      (s.pc t = .wTimedOut k ∨ s.pc t = .wLate k ∨ ∃ f, s.pc t = .wHold k f) := by
   trg_stepcasesx hs
   all_goals (simp [St.setPc] at hp)
   all_goals (try (split at hp <;> simp at hp))
@@ -116,10 +117,11 @@ theorem C11_timed_false {a : Bool} {s : St} {t : Tid} {k : WKind} (h : Reachable
   refine ⟨hi.l.untimed t k (by simp [hp, Pc.needsTimed]), ?_, hi.l.checked k.side t (by simp [hp, Pc.sawFalse])⟩
   exact (hi.l.holder k.side t).1 (by simp [hp, Pc.holds])
 
-/-- a `false` result is produced only by the deciding load after a time-out … -/
+/-- a `false` result is produced only by the deciding load after a time-out (real, or a late wake-up reported
+as one): the flag is re-read under the mutex and it is false … -/
 theorem C11_timed_false_decided {s s' : St} {t : Tid} {e : Ev} {k : WKind} (hs : step s t e = some s')
     (hp : s'.pc t = .wUnlock k false) :
-    e = .ld k.side .sc false ∧ s.flag k.side = false ∧ s.pc t = .wTimedOut k := by
+    e = .ld k.side .sc false ∧ s.flag k.side = false ∧ (s.pc t = .wTimedOut k ∨ s.pc t = .wLate k) := by
   trg_stepcasesx hs
   all_goals (simp [St.setPc] at hp)
   all_goals (try (split at hp <;> simp at hp))
@@ -133,12 +135,28 @@ theorem C11_timed_false_ret {s s' : St} {t : Tid} {e : Ev} {k : WKind} (hs : ste
   all_goals (try (split at hp <;> simp at hp))
   all_goals (first | (simp_all; done) | grind)
 
-/-- a waiter that timed out holds the mutex and the awaited flag is false: the result is `false` exactly
-when the wait timed out (the shim re-acquires the mutex in the time-out step itself) -/
+/-- a waiter that timed out while still in the wait set holds the mutex and the awaited flag is false (the
+shim re-acquires the mutex in the time-out step itself; the real race "notified, but the wait reports a
+time-out" is the separate `late` wake-up, after which the flag may well be true — `C11_late_decides`) -/
 theorem C11_timeout_sees_false {a : Bool} {s : St} {t : Tid} {k : WKind} (h : Reachable a s)
     (hp : s.pc t = .wTimedOut k) : s.lock k.side = some t ∧ s.flag k.side = false := by
   have hi := inv_reachable h
   exact ⟨(hi.l.holder k.side t).1 (by simp [hp, Pc.holds]), hi.l.checked k.side t (by simp [hp, Pc.sawFalse])⟩
+
+/-- after a late wake-up (notified, reported as a time-out) the result is whatever the deciding load of the
+flag under the mutex returns: a notified waiter whose event is still in force returns `true` -/
+theorem C11_late_decides {a : Bool} {s s' : St} {t : Tid} {e : Ev} {k : WKind} (h : Reachable a s)
+    (hp : s.pc t = .wLate k) (hs : step s t e = some s') :
+    k.timed = true ∧ s.lock k.side = some t ∧ e = .ld k.side .sc (s.flag k.side) ∧
+      s' = s.setPc t (.wUnlock k (s.flag k.side)) := by
+  have hi := inv_reachable h
+  refine ⟨hi.l.untimed t k (by simp [hp, Pc.needsTimed]), (hi.l.holder k.side t).1 (by simp [hp, Pc.holds]), ?_⟩
+  cases e <;> simp [step, hp] at hs
+  rename_i a' o v
+  cases o <;> simp at hs
+  obtain ⟨⟨ha, hv⟩, rfl⟩ := hs
+  subst ha; subst hv
+  exact ⟨rfl, rfl⟩
 
 /-! ## a successful trigger / activate releases the waiters (L1: no lost wake-up) -/
 
@@ -286,6 +304,7 @@ theorem C11_holder_enabled {a : Bool} {s : St} (h : Reachable a s) {m : Side} {t
       · exact ⟨.mul .trig, rfl, by simp [step, hp, St.release, hm]⟩
   case wHold k f => exact ⟨.ld k.side .sc (s.flag k.side), rfl, by simp [step, hp]⟩
   case wTimedOut k => exact ⟨.ld k.side .sc (s.flag k.side), rfl, by simp [step, hp]⟩
+  case wLate k => exact ⟨.ld k.side .sc (s.flag k.side), rfl, by simp [step, hp]⟩
   case wUnlock k r => subst hh; exact ⟨.mul k.side, rfl, by simp [step, hp, St.release, hm]⟩
   case rLocked => exact ⟨.ld .act .sc (s.flag .act), rfl, by simp [step, hp]⟩
   case rLoop => exact ⟨.ld .trig .acq (s.flag .trig), rfl, by simp [step, hp]⟩
@@ -295,7 +314,8 @@ theorem C11_holder_enabled {a : Bool} {s : St} (h : Reachable a s) {m : Side} {t
 
 /-- pcs of a wait on side `m` (the unlocked fast-path check of `wait` / `wait_for` included) -/
 def Pc.inWait (m : Side) : Pc → Bool
-  | .wCalled k | .wLock k | .wHold k _ | .wSleep k | .wTimedOut k | .wUnlock k _ | .wRet k _ => decide (k.side = m)
+  | .wCalled k | .wLock k | .wHold k _ | .wSleep k | .wTimedOut k | .wLate k | .wUnlock k _ | .wRet k _ =>
+      decide (k.side = m)
   | _ => false
 
 /-- remaining own steps of a waiter once its flag is true -/
@@ -305,6 +325,7 @@ def Pc.waitRem : Pc → Nat
   | .wSleep _ => 5
   | .wHold _ _ => 4
   | .wTimedOut _ => 4
+  | .wLate _ => 4
   | .wUnlock _ _ => 3
   | .wRet _ _ => 2
   | _ => 0
@@ -374,6 +395,7 @@ theorem C11_thread_progress {a : Bool} {s : St} {t : Tid} (h : Reachable a s) (h
     exact viaLock k.side (.mlk k.side) rfl (by simp [Pc.holds]) (fun hf => by simp [step, hp, St.acquire, hf])
   case wHold k f => exact Or.inl (C11_holder_enabled h (own k.side (by simp [Pc.holds])))
   case wTimedOut k => exact Or.inl (C11_holder_enabled h (own k.side (by simp [Pc.holds])))
+  case wLate k => exact Or.inl (C11_holder_enabled h (own k.side (by simp [Pc.holds])))
   case wUnlock k r => exact Or.inl (C11_holder_enabled h (own k.side (by simp [Pc.holds])))
   case wRet k r => exact Or.inl ⟨.ret k.toKind r, rfl, by simp [step, hp]⟩
   case rCalled => exact viaLock .act (.mlk .act) rfl (by simp [Pc.holds]) (fun hf => by simp [step, hp, St.acquire, hf])
@@ -498,6 +520,22 @@ example : ∃ s, Reachable true s ∧ s.pc 1 = .wUnlock .waitFor false :=
 /-- `C11_timed_false_ret` -/
 example : ∃ s, Reachable true s ∧ s.pc 1 = .wRet .waitFor false ∧ (step s 1 (.ret .waitFor false)).isSome = true :=
   ⟨_, ⟨timedTrace, rfl⟩, by decide, by decide⟩
+
+/-- constructed active; `wait_for` sleeps, `trigger()` succeeds, the waiter wakes *late* (notified, but the wait
+reports a time-out) and its deciding load still sees the event -/
+def lateTrace : List (Tid × Ev) :=
+  [(1, .call .waitFor), (1, .ld .act .sc true), (1, .mlk .trig), (1, .ld .trig .sc false), (1, .ld .trig .sc false),
+   (1, .cwt .trig),
+   (2, .call .trigger), (2, .ld .act .sc true), (2, .mlk .trig), (2, .st .trig true), (2, .cna .trig), (2, .mul .trig),
+   (2, .ret .trigger true),
+   (1, .cwk .trig .late), (1, .ld .trig .sc true), (1, .mul .trig)]
+
+/-- `C11_late_decides` -/
+example : ∃ s, Reachable true s ∧ s.pc 1 = .wLate .waitFor ∧ s.flag .trig = true ∧
+    (step s 1 (.ld .trig .sc true)).isSome = true :=
+  ⟨_, ⟨lateTrace.take 14, rfl⟩, by decide, by decide, by decide⟩
+example : ∃ s, Reachable true s ∧ (step s 1 (.ret .waitFor true)).isSome = true :=
+  ⟨_, ⟨lateTrace, rfl⟩, by decide⟩
 
 /-- `C11_inactive_trigger`, `C11_trigger_false` -/
 example : ∃ s, Reachable false s ∧ s.pc 1 = .tCalled .top ∧ s.flag .act = false ∧
